@@ -70,6 +70,11 @@ def gen_instances(rng, n, kind="plain"):
             elif m == 1: I = gen_chain(r, nvars=r.range(4, 7), per_layer=r.range(3, 5), dom_max=r.range(1, 3))  # chain relaxation (merge result = real state, recycling)
             elif m == 2: I = gen_layered(r, nvars=r.range(2, 4), per_layer=r.range(1, 3), dom_max=2, cost_lo=-6, cost_hi=0)  # negative optimum
             else: I = gen_layered(r, nvars=r.range(4, 7), per_layer=r.range(3, 5), dom_max=2, depth_free=True, dominance=0)  # state does not embed depth
+        elif kind == "reconv" and i % 3 == 2:
+            I = gen_topmerge(r)          # one dedicated merged state per layer: the same merged state re-appears in every diagram (cache hits inside compilations)
+        elif kind == "reconv" and i % 3 == 1:
+            # long searches with heavy re-convergence: the same (state, depth) is reached from several open sub-problems with different values
+            I = gen_layered(r, nvars=r.range(6, 8), per_layer=r.range(3, 4), dom_max=3, dominance=0, rub=r.choice([0, 0, 3]), slack=r.choice([0, 1, 3, 6]), dead=False)
         elif kind == "reconv":
             I = gen_layered(r, nvars=r.range(4, 7), per_layer=r.range(1, 3), dom_max=r.range(2, 3), dominance=r.choice([0, 0, 1]),
                             rub=r.choice([0, 1, 2, 3, 3]))
@@ -281,6 +286,42 @@ def check_c01(tier, pid="C01"):
                                  "entry no longer belong together) (ops %s, answers %s)" % (v, l, a), {"ops": l, "impl": a, "model": b, "spec_verdict": v})
             else:
                 sc.dis.append((insts[0], l, a, b, "fringe-level"))
+    # the PARALLEL solver with a single worker is deterministic (one interleaving): same instances, every configuration, vs the oracle;
+    # for C09 / C03-like defects of the cache handling: plus many depth-free instances (a state re-appears at the same depth with a BETTER value
+    # after its first copy has been explored - the situation in which a wrong `explored` threshold loses the optimum)
+    pinsts = list(insts); popts = None
+    if pid == "C09":
+        for _ in range(300 if tier == "quick" else 3000):
+            r = sc.rng.fork()
+            pinsts.append(gen_layered(r, nvars=r.range(5, 8), per_layer=r.range(3, 5), dom_max=2, depth_free=True, dominance=0, rub=r.choice([0, 3]),
+                                      slack=r.choice([0, 2, 5]), dead=False))
+        for _ in range(300 if tier == "quick" else 3000):
+            pinsts.append(gen_topmerge(sc.rng.fork()))
+        opts = opts + oracle_batch([(I.line(), ["O opt"]) for I in pinsts[len(insts):]])
+    pblocks = []
+    for j, I in enumerate(pinsts):
+        lines = [I.line()]
+        for (flv, cache, fr, w, dom) in CONFIGS_ALL:
+            if dom and I.domkind == 0: continue
+            if pid == "C09" and not cache: continue
+            lines.append(sline(1, 1, 1, flv, cache, fr, w, 0, dom))
+            if j >= len(insts): lines.append(sline(0, 1, 1, flv, cache, fr, w, 0, dom))      # and the sequential caching solver on the extra instances
+        pblocks.append(lines)
+    pimpl = run_blocks("impl", pblocks, pid + "p1")
+    sc.stats["parallel_single_worker_runs"] = sum(len(b) - 1 for b in pblocks)
+    for I, blk, il, op in zip(pinsts, pblocks, pimpl, opts):
+        opt = op[0]
+        for case, li in zip(blk[1:], il):
+            f = kv(li); ctx = describe(I, case, li, optimum=opt)
+            if "CRASH" in f or "HANG" in f:
+                if not (I.notimp and classify_hang(I, case)):
+                    sc.chk.violation("property", "parallel maximize() with one worker panics / does not terminate: %s" % case, ctx)
+            elif f.get("x") != "1" or f.get("bv") != opt:
+                sc.chk.violation("property", "%s returns %s (exact=%s), optimum by exhaustive enumeration %s (%s)"
+                                 % ("parallel solver (one worker)" if case.split()[1] == "1" else "sequential solver", f.get("bv"), f.get("x"), opt, case), ctx)
+            elif pid in ("C01", "C02"):
+                for m in consistency_failures(I, f, True):
+                    sc.chk.violation("property", "C02 (parallel, one worker): %s (%s)" % (m, case), ctx)
     if pid == "C09":
         # diagram-level stream with the threshold cache (and dominance store) shared across compilations, as the solvers do:
         # thresholds, cache calls and pruning flags of every compilation must equal the model's
@@ -341,6 +382,36 @@ def check_c01(tier, pid="C01"):
     return sc.finish(RULE, expl, openo, extra)
 
 
+def par_one_worker_cache_batch(chk, rng, n):
+    """parallel solver with ONE worker (deterministic) and the cache, on depth-free instances where a state re-appears at the same depth with a
+    better value after its first copy was explored; vs exhaustive enumeration. Returns the number of runs."""
+    insts = []
+    for _ in range(n):
+        r = rng.fork()
+        insts.append(gen_layered(r, nvars=r.range(5, 8), per_layer=r.range(3, 5), dom_max=2, depth_free=True, dominance=0, rub=r.choice([0, 3]),
+                                 slack=r.choice([0, 2, 5]), dead=False))
+    opts = oracle_batch([(I.line(), ["O opt"]) for I in insts])
+    blocks = []
+    for I in insts:
+        lines = [I.line()]
+        for flv in (0, 1, 2):
+            for fr in (0, 1):
+                for w in (1, 2, 3):
+                    lines.append(sline(1, 1, 1, flv, 1, fr, w, 0, 0))
+        blocks.append(lines)
+    out = run_blocks("impl", blocks, chk.pid + "p1c")
+    runs = 0
+    for I, blk, il, op in zip(insts, blocks, out, opts):
+        for case, li in zip(blk[1:], il):
+            f = kv(li); runs += 1
+            if "CRASH" in f or "HANG" in f:
+                chk.violation("property", "parallel maximize() with one worker and the cache panics / does not terminate: %s" % case, describe(I, case, li, optimum=op[0]))
+            elif f.get("x") != "1" or f.get("bv") != op[0]:
+                chk.violation("property", "parallel solver (one worker, cache) returns %s (exact=%s), optimum by exhaustive enumeration %s (%s)"
+                              % (f.get("bv"), f.get("x"), op[0], case), describe(I, case, li, optimum=op[0]))
+    return runs
+
+
 # ================================================================================ C05 / C19 (cutoff at every poll)
 def check_cutoff(tier, pid):
     sc = SolveCheck(pid, tier, "proof")
@@ -357,11 +428,17 @@ def check_cutoff(tier, pid):
     if not sc.build(): return sc.chk.finish()
     n = 25 * (1 if tier == "quick" else 30)
     insts = gen_instances(sc.rng, n, "plain")
+    # deep searches: many sub-problems open when the cutoff fires (the node in process is NOT the only carrier of the optimum's bound)
+    ndeep = 10 if tier == "quick" else 120
+    for _ in range(ndeep):
+        r = sc.rng.fork()
+        insts.append(gen_layered(r, nvars=r.range(5, 7), per_layer=r.range(3, 5), dom_max=r.range(2, 3), dominance=0, rub=r.choice([0, 0, 3]), dead=False))
     cfgs = [(0, 0, 0, 1, 0), (1, 0, 1, 2, 0), (0, 1, 0, 1, 0), (1, 1, 1, 1, 0), (2, 0, 0, 2, 0), (0, 0, 1, 1, 1)]
+    deep_cfgs = [(0, 0, 0, 1, 0), (1, 0, 1, 1, 0), (0, 0, 1, 2, 0)]
     base_blocks = []
-    for I in insts:
+    for j, I in enumerate(insts):
         lines = [I.line()]
-        for (flv, cache, fr, w, dom) in cfgs:
+        for (flv, cache, fr, w, dom) in (cfgs if j < n else deep_cfgs):
             if dom and I.domkind == 0: continue
             lines.append(sline(0, 1, 1, flv, cache, fr, w, 0, dom))
         base_blocks.append(lines)
@@ -375,7 +452,10 @@ def check_cutoff(tier, pid):
             f = kv(li)
             K = int(f.get("polls", "0") or 0)
             t = case.split()
-            for k in range(1, min(K, KMAX) + 2):
+            # every cutoff index up to KMAX, then every third one up to 6 * KMAX, and always the last two
+            ks = list(range(1, min(K, KMAX) + 2)) + list(range(KMAX + 2, min(K, 6 * KMAX) + 2, 3))
+            for k in sorted(set(ks + [K, K + 1])):
+                if k < 1: continue
                 lines.append(sline(0, 1, 1, int(t[4]), int(t[5]), int(t[6]), int(t[7]), k, int(t[9])))
                 meta.append((case, k, K))
         blocks.append(lines); metas.append(meta)
